@@ -220,6 +220,7 @@ func init() {
 			guard(r, "TABLEFILL", func() { ruleTABLEFILL(w, r, 1, "expTable", "logTable") })
 			guard(r, "INTONLY", func() { ruleINTONLY(w, r) })
 			guard(r, "ZEROEXP", func() { ruleZEROEXP(w, r) })
+			guard(r, "ZERODIV", func() { ruleZERODIV(w, r) })
 			guard(r, "RANGE", func() {
 				ruleRANGE(w, r, []string{"gf2p16", "gf2"}, 5, func(fn *ssa.Function) bool {
 					return fn.Signature.Recv() != nil && namedTypeName(fn.Signature.Recv().Type()) != "gf2p16.Matrix"
@@ -326,6 +327,7 @@ func init() {
 			guard(r, "NONEMPTY", func() { ruleNONEMPTY(w, r, "rsec16", "par1", "par2") })
 			guard(r, "ENTRY-SEQ", func() { ruleENTRYSEQ(w, r, "par1", "par2") })
 			guard(r, "IFSCPAIRS", func() { ruleIFSCPAIRS(w, r) })
+			guard(r, "SLICECAP", func() { ruleSLICECAP(w, r) })
 			guard(r, "NOWRITE", func() { ruleNOWRITE(w, r) })
 			guard(r, "PAIR", func() { rulePAIRpar2(w, r, pairOpts{decoder: true}) })
 		},
@@ -422,6 +424,7 @@ func init() {
 			})
 			guard(r, "SHLEN", func() { ruleSHLEN(w, r) })
 			guard(r, "IFSCPAIRS", func() { ruleIFSCPAIRS(w, r) })
+			guard(r, "SLICECAP", func() { ruleSLICECAP(w, r) })
 			guard(r, "NILF", func() { ruleNILF(w, r) })
 			guard(r, "MKLEN", func() { ruleMKLEN(w, r) })
 			guard(r, "RANGE", func() { ruleRANGE(w, r, []string{"par1", "par2"}, 0) })
@@ -441,6 +444,7 @@ func init() {
 			})
 			guard(r, "PAIR", func() { rulePAIRERRTYPE(w, r); ruleCLASSIFY(w, r); pairPar1Reconstruct(w, r) })
 			guard(r, "ERRIDENT", func() { ruleERRIDENT(w, r) })
+			guard(r, "PAR1NOPAR", func() { rulePAR1NOPAR(w, r) })
 			guard(r, "NEEDSLICE", func() { ruleNEEDSLICE(w, r) })
 			guard(r, "GATE", func() { ruleGATE(w, r, gateOpts{par1: true}) })
 			guard(r, "GLOB", func() { ruleGLOB(w, r, globOpts{complete: true}) })
